@@ -129,6 +129,18 @@ func (k *Key) MultiSig(msg []byte, who []bool, bits []bool) []byte {
 	return ms.Marshal()
 }
 
+// MultiSigFromParts builds a marshalled multisignature over n sub-keys from
+// per-index signatures (nil = sub-key did not sign).
+func MultiSigFromParts(n int, parts [][]byte) []byte {
+	ms := multisig.NewMultisig(n)
+	for i, p := range parts {
+		if p != nil {
+			ms.AddSignature(p, i)
+		}
+	}
+	return ms.Marshal()
+}
+
 // FlipBit returns a copy of b with bit i flipped.
 func FlipBit(b []byte, i int) []byte {
 	o := append([]byte(nil), b...)
